@@ -126,3 +126,57 @@ PROPS["C05"] = dict(
     assumptions=["total declared output length of a delta < 2^64 bytes"],
     not_decided=["tokio file flush semantics behind `copia patch` (the CLI wrapper is checked under C20's cli unit)"],
 )
+
+SIG_TRUST = [
+    "Signature::generate (chunks/par_chunks/enumerate/map/collect, rayon): contract `Ok ==> sig_of(result, stream)` ASSUMED, validated by the signature_generate twin on the sequential and the parallel path",
+    "SignatureTable::{from_signature, is_empty, has_weak_match, find_match} (FxHashMap entry API, iterator adapters): contracts ASSUMED, validated by the signature_table twin",
+    "derived Clone of Signature returns an equal value",
+    "collision_free() (no two byte strings with the same BLAKE3) is a HYPOTHESIS of the reconstruction / copy-bounds / greedy clauses, never an axiom",
+]
+
+PROPS["C01"] = dict(
+    level="proof",
+    units=[dict(template="units/delta.rs", slice=["*", "!RollingChecksum::roll", "!RollingChecksum::push", "!RollingChecksum::sum_*", "!RollingChecksum::len", "!RollingChecksum::is_empty", "!lemma_c17*", "!lemma_g_lit_identical"],
+                ignore_clauses={"::delta": [r"g_lit\("]})],
+    twins=[
+        dict(name="signature_generate", repo_fn="src/signature.rs Signature::generate", quick=3, thorough=60,
+             contract="Ok ==> one entry per block, index j, weak == exact digest of block j, strong == BLAKE3(block j), file_size; both <=64KiB and >64KiB (rayon) paths, all 8 CLI block sizes"),
+        dict(name="signature_table", repo_fn="src/signature.rs SignatureTable", quick=3, thorough=60,
+             contract="has_weak_match <=> some block has that weak hash; find_match == first block with that weak hash whose strong hash == BLAKE3(data), else None"),
+        dict(name="engines_agree", repo_fn="src/async_sync.rs AsyncCopiaSync", quick=3, thorough=60,
+             contract="AsyncCopiaSync::signature == Signature::generate on the same bytes; AsyncCopiaSync::delta == CopiaSync::delta; round trip through both patch engines"),
+    ],
+    fallback_searches=["roundtrip"],
+    clauses={
+        "CopiaSync::delta / AsyncCopiaSync::delta": "Ok ==> source_size == |S|, checksum == BLAKE3(S), basis_size == |basis|, cpy + lit == |S|; under collision_free(): every copy inside the basis and out(ops, basis) == S; io_ok ==> Ok",
+        "patch (both engines)": "Ok ==> bytes written == out(ops, content(basis)); io_ok && well-formed && checksum matches ==> Ok",
+        "lemma_c01_roundtrip": "delta's postcondition establishes patch's success antecedent; patch's output clause gives exactly the source",
+        "CopiaSync::signature": "== Signature::generate's contract (sig_of)",
+        "lemma_sig_unique": "sig_of determines the signature: engine / sequential vs parallel path independence follows from every producer satisfying sig_of",
+    },
+    trusted=COMMON_TRUST + IO_TRUST + SIG_TRUST,
+    assumptions=["block size <= 2^24 and basis < 2^48 bytes (library-level domain restriction; the CLI allows 512..65536)", "block index < 2^32"],
+    not_decided=["AsyncCopiaSync::signature's read loop: assumed to satisfy sig_of, validated by the engines_agree twin (not yet under a loop invariant)",
+                 "CLI file chain (bincode files) and single-file `sync` (sync_files, tokio fs): validated by twins only",
+                 "engine-independence of the DELTA value: both engines satisfy the same contract (same greedy literal count and same reconstruction); equality of the op lists themselves is checked by the engines_agree twin only"],
+)
+
+PROPS["C16"] = dict(
+    level="proof",
+    units=[dict(template="units/delta.rs", slice=["*"])],
+    twins=[
+        dict(name="signature_generate", repo_fn="src/signature.rs Signature::generate", quick=3, thorough=60,
+             contract="weak hashes in a generated signature are the exact digests of the blocks (all block sizes, both paths)"),
+        dict(name="signature_table", repo_fn="src/signature.rs SignatureTable", quick=3, thorough=60,
+             contract="has_weak_match / find_match as assumed by the delta proof"),
+    ],
+    fallback_searches=["greedy"],
+    clauses={
+        "delta (both engines)": "under collision_free(): lit(ops) == g_lit(S, basis, bs, 0) — exactly the literal bytes of the textbook greedy scan (hence 'no more')",
+        "why it needs C17": "window == full basis block j ==> signature weak hash (RollingChecksum::new, exact) == rolling digest (FastRollingChecksum, lazy mod, after any number of slides) ==> has_weak_match ==> find_match confirms",
+        "lemma_g_lit_identical": "g_lit(b, b, bs, 0) < bs: an identical file costs less than one block of literals",
+    },
+    trusted=COMMON_TRUST + IO_TRUST + SIG_TRUST,
+    assumptions=["block size <= 2^24, basis < 2^48 bytes"],
+    not_decided=["the k-edit corollary (k + 2 blocks) is not mechanised"],
+)
